@@ -1,7 +1,7 @@
 (* Hist/ProofsC07Ex.v - concrete evaluations for C07 (vm_compute on the faithful string-level model):
-   the unconditional crash-safety statements P3 / P4 / "an acknowledged update is never hidden" are FALSE of the model of
-   the pinned code - F7a (empty newest file), F7b (compaction twin), F7c (update glued to a torn tail) - and an Example
-   that the premises of the `_partial` theorems hold for a trace whose operations have several crash states each. *)
+   F7a (empty newest file) is repaired (3aa388e): the former witness is a positive Example; still FALSE of the model of the code:
+   P4 inside the compaction window once the twin is complete (F7b) and "an acknowledged update is never hidden" after a torn write
+   (F7c); and an Example that the premises of the theorems hold for a trace whose operations have several crash states each. *)
 From Coq Require Import List String Ascii Bool Arith ZArith.
 Import ListNotations.
 From BD.Hist Require Import GoMatch Model SModel Spec ProofsString ProofsRefine ProofsTop ProofsC06 ProofsC06Ex ProofsC07.
@@ -14,29 +14,33 @@ Definition oOpen : op := OOpen a "20240101.10:00:01.300" "req-bbbb-2" 4%Z.
 Definition q1 := pl "req-aaaa-1" 1 10.
 Definition q2 := pl "req-bbbb-2" 2 10.
 
-(* F7a: killed between Open's create and the first write: the newest file is empty - latest answers an ERROR and recent 1
-   nothing, although the previous run has acknowledged data *)
-Lemma refuted_empty_newest :
-  exists es o fs', In fs' (crash_states loc dh (y_h (yrun loc dh sys_init es)) o)
-    /\ sp_latest (sp_state es) a None = LOk q1 /\ sp_recent (sp_state es) a 1 = [q1]
-    /\ snd (q_latest loc dh [] fs' a None) = LErr /\ snd (q_recent loc dh [] fs' a 1) = [].
-Proof.
-  exists es0, oOpen, (nth 2 (crash_states loc dh (y_h (yrun loc dh sys_init es0)) oOpen) fs_empty).
-  split; [|vm_compute; auto]. vm_compute. auto.
-Qed.
+(* F7a (fixed by 3aa388e): killed between Open's create and the first write the newest file is empty.  Before the fix the model
+   answered latest = error (io.EOF) and recent 1 = nothing in that crash state, although the previous run has acknowledged data;
+   now every crash state of this Open answers with the previous run's status *)
+Example fixed_empty_newest :
+  sp_latest (sp_state es0) a None = LOk q1 /\ sp_recent (sp_state es0) a 1 = [q1]
+  /\ List.length (crash_states loc dh (y_h (yrun loc dh sys_init es0)) oOpen) = 3
+  /\ forallb (fun fs' => match snd (q_latest loc dh [] fs' a None), snd (q_recent loc dh [] fs' a 1) with
+                         | LOk p, [p'] => String.eqb (p_req p) "req-aaaa-1" && String.eqb (p_req p') "req-aaaa-1" && Nat.eqb (p_tag p) 1
+                         | _, _ => false end)
+             (crash_states loc dh (y_h (yrun loc dh sys_init es0)) oOpen) = true.
+Proof. repeat split; vm_compute; reflexivity. Qed.
 
-(* F7b: killed inside the compaction of Close: recent 2 lists the run twice (twin complete, original not yet unlinked) or
-   loses a slot to the empty twin - in both cases the older run with acknowledged data is hidden *)
+(* F7b (still open): killed inside the compaction of Close after the twin's status line is complete and before the original is
+   unlinked: recent 2 lists the run twice - the older run with acknowledged data is hidden.  (The second half of F7b - an empty twin
+   taking a slot - is gone with 3aa388e: in those crash states recent 2 now answers [q2; q1].) *)
 Lemma refuted_compaction_twin :
-  exists es now fs1 fs2, In fs1 (crash_states loc dh (y_h (yrun loc dh sys_init es)) (OClose now))
-    /\ In fs2 (crash_states loc dh (y_h (yrun loc dh sys_init es)) (OClose now))
+  exists es now fs2, In fs2 (crash_states loc dh (y_h (yrun loc dh sys_init es)) (OClose now))
     /\ sp_recent (sp_state es) a 2 = [q2; q1] /\ sp_recent (sp_state (es ++ [EOp (OClose now)])) a 2 = [q2; q1]
-    /\ snd (q_recent loc dh [] fs1 a 2) = [q2] /\ snd (q_recent loc dh [] fs2 a 2) = [q2; q2].
+    /\ snd (q_recent loc dh [] fs2 a 2) = [q2; q2].
 Proof.
-  exists es1, 6%Z, (nth 2 (crash_states loc dh (y_h (yrun loc dh sys_init es1)) (OClose 6%Z)) fs_empty),
-                  (nth 4 (crash_states loc dh (y_h (yrun loc dh sys_init es1)) (OClose 6%Z)) fs_empty).
-  split; [vm_compute; auto 10|]. split; [vm_compute; auto 10|]. vm_compute. auto.
+  exists es1, 6%Z, (nth 5 (crash_states loc dh (y_h (yrun loc dh sys_init es1)) (OClose 6%Z)) fs_empty).
+  split; [vm_compute; auto 10|]. vm_compute. auto.
 Qed.
+Example empty_twin_invisible :
+  snd (q_recent loc dh [] (nth 2 (crash_states loc dh (y_h (yrun loc dh sys_init es1)) (OClose 6%Z)) fs_empty) a 2) = [q2; q1]
+  /\ snd (q_recent loc dh [] (nth 3 (crash_states loc dh (y_h (yrun loc dh sys_init es1)) (OClose 6%Z)) fs_empty) a 2) = [q2; q1].
+Proof. split; vm_compute; reflexivity. Qed.
 
 (* F7c: a write torn by the kill leaves an unterminated tail; a status update ACCEPTED afterwards is glued to it: the
    update (and, for a complete-but-unterminated tail, the torn status too) is lost *)
